@@ -185,7 +185,9 @@ fn hostile_headers(rng: &mut Rng) -> Vec<(String, Vec<u8>)> {
     h
 }
 
-const URLS: [&str; 16] = [
+const URLS: [&str; 22] = [
+    "omaha.example.com", "localhost:8080", "omaha.example.com:443", "user@host", "*", "http:",
+
     "", " ", "http://", "http://exa mple.com/", "https://omaha.example/path?x=1", "ftp://x/y", "http://[::1]:8080/", "http://[::1/", "//x", "/relative/only",
     "http://omaha.example:99999/", "http://omaha.example/%zz", "\u{0}", "http://omaha.example/\u{e9}", "http://omaha.example/#frag", "http://user:pw@omaha.example/",
 ];
@@ -289,7 +291,7 @@ pub fn run(args: &Args, r: &mut Report) {
         if rng.bool() {
             paths[0] = Path::Install;
         }
-        let cfg = HistCfg { start_mode, cup: rng.chance(1, 4), n_apps: 1 + rng.usize(2), paths, cohorts: rng.bool(), deliveries: rng.bool(), random_params: rng.bool(), throttles: false };
+        let cfg = HistCfg { start_mode, cup: if wl == 2 { rng.bool() } else { rng.chance(1, 4) }, n_apps: 1 + rng.usize(2), paths, cohorts: rng.bool(), deliveries: rng.bool(), random_params: rng.bool(), throttles: false };
         let mut case = gen_history(&mut rng, &cfg);
         let apps = case.setup.apps.clone();
         let mut l = add_reboot_waits(&mut case.script, &mut rng, true, &apps);
